@@ -66,7 +66,9 @@ def write_config(path: Path, **cfg) -> Path:
     """Minimal YAML writer for clack config files (dicts of str / lists of str)."""
     lines = []
     for k, v in cfg.items():
-        if isinstance(v, dict):
+        if isinstance(v, dict) and not v:
+            lines.append(f"{k}: {{}}")
+        elif isinstance(v, dict):
             lines.append(f"{k}:")
             for kk, vv in v.items():
                 if isinstance(vv, (list, tuple)):
